@@ -35,7 +35,7 @@ pub fn prop() -> Prop {
             Tier::Quick => 30,
             Tier::Thorough => 300,
         },
-        required_probes: &["dkg_completed", "own_id_smallest", "own_id_largest", "ids_derived", "ids_scalar", "ids_u16ext", "t_eq_n", "crash_during_dkg", "signed_after_dkg", "taproot_dkg", "t_ge_17"],
+        required_probes: &["cloned_rng_state", "dkg_completed", "own_id_smallest", "own_id_largest", "ids_derived", "ids_scalar", "ids_u16ext", "t_eq_n", "crash_during_dkg", "signed_after_dkg", "taproot_dkg", "t_ge_17"],
         prepare: None,
     }
 }
@@ -93,6 +93,13 @@ fn gen_c<C: Suite>(seed: u64, run: u64, tier: Tier) -> Scenario {
     if p.chance(1, 6) {
         let node = p.below(n as u64) as usize;
         s.faults.push(Fault::CrashAfterStart { node, inst: 0, down_for: p.range(1, 30) as u32 });
+    }
+    // random-source fault: two participants run on a CLONED generator state (machines restored from one snapshot) and so choose
+    // the same polynomial and broadcast the same commitment - unusual, legal, and the key generation must still come out right
+    let mut ap = stream(seed, run, "gen/rng_alias");
+    if n >= 2 && ap.chance(1, 10) {
+        let pair = ap.subset(n as usize, 2);
+        s.extra = serde_json::json!({"rng_alias": {pair[1].to_string(): pair[0]}});
     }
     s
 }
@@ -225,6 +232,9 @@ pub fn check_dkg_outcome<C: Suite>(sim: &Sim<C>, scen: &Scenario, inst: u32, rep
 
 fn exec_c<C: Suite>(scen: &Scenario) -> Exec {
     let mut rep = new_report(scen);
+    if scen.extra.get("rng_alias").is_some() {
+        rep.probe("cloned_rng_state");
+    }
     let sim = match run_honest::<C>(scen, &mut rep) {
         Ok(s) => s,
         Err(v) if v.oracle == "harness" => return Exec::Harness(v.detail),
